@@ -206,6 +206,14 @@ func (st *state) slzMut(f func() string) string {
 	return res + " ; " + st.slzDump()
 }
 
+func slItemPtrs(items []*zset.Item) string {
+	out := make([]zset.Item, len(items))
+	for i, it := range items {
+		out[i] = *it
+	}
+	return slItems(out)
+}
+
 func (st *state) slzOp(toks []string) (string, string) {
 	if len(toks) < 2 {
 		return "bad-op", ""
@@ -289,6 +297,52 @@ func (st *state) slzOp(toks []string) (string, string) {
 				return "nil"
 			}
 			return strconv.FormatInt(r, 10)
+		}), ""
+	case "ZRange", "ZRevRange":
+		if len(args) != 2 {
+			return "bad-op", ""
+		}
+		start, ok1 := slInt(args[0])
+		stop, ok2 := slInt(args[1])
+		if !ok1 || !ok2 {
+			return "bad-op", ""
+		}
+		rev := toks[1] == "ZRevRange"
+		return slQuery(func() string {
+			if rev {
+				return slItemPtrs(st.slz.ZRevRange(start, stop))
+			}
+			return slItemPtrs(st.slz.ZRange(start, stop))
+		}), ""
+	case "ZCount":
+		if len(args) != 3 {
+			return "bad-op", ""
+		}
+		lo, ok1 := slScore(args[0])
+		hi, ok2 := slScore(args[1])
+		mode, ok3 := slInt(args[2])
+		if !ok1 || !ok2 || !ok3 {
+			return "bad-op", ""
+		}
+		return slQuery(func() string { return strconv.FormatInt(st.slz.ZCount(lo, hi, int(mode)), 10) }), ""
+	case "ZRangeByScore", "ZRevRangeByScore":
+		if len(args) != 5 {
+			return "bad-op", ""
+		}
+		lo, ok1 := slScore(args[0])
+		hi, ok2 := slScore(args[1])
+		offset, ok3 := slInt(args[2])
+		count, ok4 := slInt(args[3])
+		mode, ok5 := slInt(args[4])
+		if !ok1 || !ok2 || !ok3 || !ok4 || !ok5 {
+			return "bad-op", ""
+		}
+		rev := toks[1] == "ZRevRangeByScore"
+		return slQuery(func() string {
+			if rev {
+				return slItemPtrs(st.slz.ZRevRangeByScore(lo, hi, offset, count, int(mode)))
+			}
+			return slItemPtrs(st.slz.ZRangeByScore(lo, hi, offset, count, int(mode)))
 		}), ""
 	}
 	return "bad-op", ""
